@@ -396,6 +396,10 @@ def run(ctx):
                     ys.append(cand)
                     continue
             ys.append(min(max(level + rng.randrange(-1, 2), 0), 2000))
+        if rng.random() < 0.3:
+            # a large common offset (rotation speeds in the thousands with a fine tolerance): the slopes, and hence
+            # the plateaus, are the same - a comparison relative to the size of the data would merge small steps
+            ys = [y + 2 ** 17 for y in ys]
         kind = rng.choice(kinds)
         minn = rng.choice([1, 2, 3, max(1, n // 4), n])
         jobs.append((tid, ys, dxs, an, ad, minn, kind, 2.0 ** rng.choice([-40, -8, -3, 0, 1, 5, 30]),
